@@ -6,6 +6,7 @@ from ..core import astq
 from ..core import dims as D
 from ..core.cfg import guards_of
 from . import common as K
+from . import flowalg
 from . import c06, c09, c11, c16
 
 EXPLANATION = (
@@ -28,7 +29,8 @@ def run(ctx):
     ctx.each(c06.r06a, ctx, repo)
     ctx.each(r13e, ctx, repo, T)
     ctx.each(c11.r11e, ctx, repo, "R13f")
-    ctx.each(c16.r16a, ctx, repo, T)  # the outcome a program set implies is computed from a cache: it must follow every edit of the visible outcomes
+    ctx.each(c16.r16a, ctx, repo, T)
+    ctx.each(flowalg.accumulator_rule, ctx, repo, "R13g", [("model", "Model.update_pars"), ("model", "Parameter.source_popsize"), ("results", "Result.get_coverage")], 6, "the eligible-people counts")  # the outcome a program set implies is computed from a cache: it must follow every edit of the visible outcomes
 
 
 def _norm_src(txt):
